@@ -92,6 +92,15 @@ pub fn run(a: &Args, acc: &mut Acc) {
             }
         }
         run.prologue();
+        // configuration messages that validation refuses (staked-asset denoms of other shapes, other chains'
+        // voucher prefixes): both builds must refuse the same ones — the outcome is part of the digest
+        {
+            let sc = run.sc.clone();
+            let h64 = "A".repeat(64);
+            for d in [format!("l2/{h64}"), format!("l1/{h64}"), format!("move/{h64}"), format!("evm/{h64}"), format!("factory/{}/x", sc.q), "uinit".to_string(), "uosmo".to_string(), format!("ibc/{}", "A".repeat(63)), format!("IBC/{h64}")] {
+                run.step(Op::exec(&sc.admin, &sc.q, json!({"update_config": {"protocol_chain_config": {"account_address_prefix": sc.cfg.prefix, "ibc_token_denom": d, "ibc_channel_id": sc.cfg.channel, "minimum_liquid_stake_amount": sc.cfg.min_stake.to_string(), "oracle_address": sc.oracle}}}), vec![]));
+            }
+        }
         let mut g = Gen::new(hseed ^ 0x1919, Profile::balanced());
         run.random_steps(&mut g, steps);
         for (k, v) in &run.model.counters {
